@@ -446,11 +446,18 @@ func refEncode(data []byte) []byte {
 // bytes the bit reader had to invent after the end of the input, maxOut
 // bounds the work for hostile sizes.
 func refDecode(body []byte, textsize int, maxOut int) (out []byte, pad int) {
+	out, pad, _ = refDecodeBits(body, textsize, maxOut)
+	return
+}
+
+// refDecodeBits additionally reports how many bits of input the decoded
+// symbols consumed (the 16-bit look-ahead of the C bit reader not counted).
+func refDecodeBits(body []byte, textsize int, maxOut int) (out []byte, pad int, usedBits int) {
 	z := new(refLZ)
 	z.makeTables()
 	z.in = body
 	if textsize <= 0 {
-		return nil, 0
+		return nil, 0, 0
 	}
 	z.startHuff()
 	for i := 0; i < refN-refF; i++ {
@@ -476,7 +483,7 @@ func refDecode(body []byte, textsize int, maxOut int) (out []byte, pad int) {
 			}
 		}
 	}
-	return z.out, z.pad
+	return z.out, z.pad, 8*(z.inPos+z.pad) - int(z.getlen)
 }
 
 // bitwise CRC-16/XMODEM (poly 0x1021, init 0, no reflection, no final xor)
